@@ -72,6 +72,7 @@ def plan(tier, seed):
             sp["stride"] = 40
             sp["offset"] = seed % 40
         shards.append(sp)
+    shards.append({"kind": "gtests"})
     for sp in shards:
         sp["tier"] = tier
     return shards
@@ -135,6 +136,9 @@ def exercise(gd, acc, rng=None, all_subsets=True):
 
 def run_shard(spec):
     k = spec["kind"]
+    if k == "gtests":
+        from .graphbase import run_gtests_shard
+        return run_gtests_shard(PROPERTY)
     if k not in ("digraphs", "randdigraphs", "single") or (
             k == "single" and spec["case"].get("kind") != "digraph"):
         r = _pipeline.run_shard(spec)
